@@ -36,6 +36,13 @@ int main(void)
     for (int i = 0; i < NB; i++)
         raw[i] = nd_u8();
     raw[NB] = raw[NB + 1] = raw[NB + 2] = 0xff;     /* padding: a 1 bit always terminates the prefix inside the block */
+#ifdef LONGCODE
+    /* long code words (LONGCODE = 24..31 leading zero bits, values >= 2^24 - 1): the prefix is concrete -- three zero
+     * octets, which an encoder must write as 00 00 03 00 -- then (LONGCODE - 24) zero bits and the terminating 1; the
+     * rest of that octet and the following octets (where further escapes may fall) are symbolic */
+    raw[0] = 0; raw[1] = 0; raw[2] = 3; raw[3] = 0;
+    VASSUME((raw[4] >> (7 - (LONGCODE - 24))) == 1);
+#endif
     /* reference: remove emulation prevention octets */
     int zeros = 0;
     nclean = 0;
